@@ -1622,7 +1622,16 @@ func (e *extraIndenter) WriteByte(b byte) error {
 		e.bufWriter.WriteByte('\t')
 	}
 	e.bufWriter.WriteByte(tabwriter.Escape)
-	e.bufWriter.Write(trimmed)
+	if rest := trimmed[:len(trimmed)-1]; bytes.ContainsAny(rest, "\t\f\v") {
+		// Any other tabs in the line are part of the heredoc body,
+		// so keep the tabwriter from treating them as cell separators.
+		e.bufWriter.WriteByte(tabwriter.Escape)
+		e.bufWriter.Write(rest)
+		e.bufWriter.WriteByte(tabwriter.Escape)
+		e.bufWriter.WriteByte('\n')
+	} else {
+		e.bufWriter.Write(trimmed)
+	}
 	e.curLine = e.curLine[:0]
 	return nil
 }
